@@ -691,13 +691,17 @@ func knownInvalidOnPath(n *ce.Node, ki map[*ce.Node]bool) bool {
 
 var recEq = ev.New("C17", "delivery-equivalence",
 	"one generated tree (5-40 blocks, up to 2 invalid) delivered twice to fresh chains: blocks only in tree order, and all headers first (tree order) followed by the blocks in a generated order; "+
+		"in half of the cases a generated fifth of the blocks never arrives (header-only nodes in the second run) and/or one generated block is invalidated by hand at the end of both runs; "+
 		"oracle: both end on tips of equal cumulative work that the chain-selection model allows (identical hashes when the model allows a single tip) and the same set of blocks on the active chain when identical; "+
 		"non-trivial = tree has a fork or an invalid block; distinct by tree hash",
-	"fork", "invalid", "plain")
+	"fork", "invalid", "plain", "invalidated-at-the-end", "blocks-withheld")
 
 func TestDeliveryEquivalence(t *testing.T) {
 	rapid.Check(t, func(t *rapid.T) {
 		tr := ce.GenTree(t, ce.TreeCfg{Families: []ce.Family{ce.FamFlat, ce.FamWork}, MinBlocks: 5, MaxBlocks: ev.Scale(25, 40), MaxInvalid: 2, ForkProb: 25, Txs: true})
+		withheld := map[*ce.Node]bool{}
+		var victim *ce.Node
+		var withheldIdx []int
 		run := func(headersFirst bool) (*ce.Node, *big.Int) {
 			env, err := ce.NewEnv(tr.Params, ce.EnvOpt{UtxoCacheMaxSize: 1 << 20})
 			if err != nil {
@@ -720,16 +724,46 @@ func TestDeliveryEquivalence(t *testing.T) {
 				}
 			}
 			for _, n := range order {
+				if withheld[n] {
+					continue // its block never arrives (with headers first the node stays header-only)
+				}
 				sel.DeliverBlock(n)
 				env.Deliver(n)
 				if err := ce.CheckTip(env, sel); err != nil {
 					t.Fatalf("headersFirst=%v after node%d: %v\ntree: %s", headersFirst, n.Idx, err, tr.Describe())
 				}
 			}
+			// the same block is invalidated by hand in both runs (when the run knows it and its state is not open)
+			if victim != nil && sel.InIndex(victim) && !sel.Murky[victim] && !sel.ManualRelated(victim) {
+				sel.Invalidate(victim)
+				h := victim.Hash
+				_ = env.Chain.InvalidateBlock(&h)
+				if err := ce.CheckTip(env, sel); err != nil {
+					t.Fatalf("headersFirst=%v after InvalidateBlock(node%d): %v\nwithheld blocks: %v\ntree: %s", headersFirst, victim.Idx, err, withheldIdx, tr.Describe())
+				}
+			}
 			return sel.Tip, sel.Tip.WorkSum
+		}
+		// blocks that never arrive, and a block to invalidate at the end (drawn once, used by both runs)
+		if rapid.Bool().Draw(t, "withhold") {
+			for _, n := range tr.Nodes[1:] {
+				if rapid.IntRange(0, 4).Draw(t, "withheld") == 0 {
+					withheld[n] = true
+					withheldIdx = append(withheldIdx, n.Idx)
+				}
+			}
+		}
+		if rapid.Bool().Draw(t, "invalidate") {
+			victim = tr.Nodes[rapid.IntRange(1, len(tr.Nodes)-1).Draw(t, "victim")]
 		}
 		t1, w1 := run(false)
 		t2, w2 := run(true)
+		if victim != nil {
+			recEq.Count("invalidated-at-the-end", 1)
+		}
+		if len(withheldIdx) > 0 {
+			recEq.Count("blocks-withheld", 1)
+		}
 		forks, invalid := 0, 0
 		for _, n := range tr.Nodes {
 			if len(n.Children) > 1 {
